@@ -659,6 +659,14 @@ func (u *Unit) evalSpecCall(env *SpecEnv, c *ECall) Value {
 			ts = append(ts, av.T)
 		}
 		return Value{T: Mk(dt, ts...), Ty: ty}
+	case "oldat":
+		// oldat(x, i): element i of slice x as it was in the old heap; x and i themselves are
+		// evaluated in the current state (unlike old(x[i]), which evaluates i in the old state too)
+		base := arg(0)
+		idx := arg(1)
+		sub := *env
+		sub.useOld = true
+		return u.specIndex(&sub, base, u.toInt(idx.T, idx.Ty))
 	case "has":
 		m := arg(0)
 		k := arg(1)
